@@ -1210,7 +1210,7 @@ func (d *stat) shapeLastClaim() {
 	}
 	last := deleting[0]
 	// the refused call: the NodeClaim create, or the NodePool read just before it
-	if d.rng.Intn(3) != 0 {
+	if d.rng.Intn(5) != 0 {
 		kind := faultKinds[d.rng.Intn(len(faultKinds))]
 		if d.rng.Intn(2) == 0 {
 			e.API.SetFaults(&world.Fault{AtCall: 1, Kind: kind, Match: func(verb, k, caller string) bool { return verb == "create" && k == "NodeClaim" }})
@@ -1222,7 +1222,7 @@ func (d *stat) shapeLastClaim() {
 			d.setSig("fault-nodepool-get")
 		}
 	}
-	sc := &scripted{at: d.rng.Intn(4), f: func() {
+	sc := &scripted{at: []int{0, 0, 1, 1, 2, 3}[d.rng.Intn(6)], f: func() {
 		d.step("  %s finishes terminating while the provisioning reconcile is in flight", last)
 		d.finalizeAndNotify(last)
 	}}
